@@ -46,17 +46,25 @@ theorem not_nl_of_not_ws {c : Char} (h : isWs c = false) : isNl c = false := by
   | false => rfl
   | true => rw [isNl_isWs hn] at h; cases h
 
-theorem scanLineStart_eq_atLineStart {first : Bool} {ctx : List Char} (hc : CtxOk first ctx)
-    (t : List Char) : scanLineStart (t.reverse ++ ctx) = atLineStart first t := by
+/-- what the line-start scans need to know: the context is as `CtxOk` says, or the text itself
+    contains a character that is not a blank (so the scans never leave the text) -/
+def CtxInv (first : Bool) (ctx t : List Char) : Prop :=
+  CtxOk first ctx ∨ ∃ c ∈ t, isHws c = false
+
+theorem scanLineStart_eq_atLineStart {first : Bool} {ctx : List Char} (t : List Char)
+    (hc : CtxInv first ctx t) : scanLineStart (t.reverse ++ ctx) = atLineStart first t := by
   obtain ⟨b, u, h⟩ := sufSplit_exists isHws t
   unfold atLineStart
   rw [h.rev_dropWhile]
   have : t.reverse = u.reverse ++ b.reverse := by rw [h.eq, List.reverse_append]
   rw [this, List.append_assoc, scanLineStart_hws_prefix _ (by simpa using h.sat)]
   rcases h.stop with rfl | ⟨b', c, rfl, hcc⟩
-  · rcases hc with ⟨rfl, rfl⟩ | ⟨rfl, c, r, rfl, hw⟩
-    · simp [scanLineStart]
-    · simp [scanLineStart, hw, not_nl_of_not_ws hw]
+  · rcases hc with hc | ⟨c, hct, hch⟩
+    · rcases hc with ⟨rfl, rfl⟩ | ⟨rfl, c, r, rfl, hw⟩
+      · simp [scanLineStart]
+      · simp [scanLineStart, hw, not_nl_of_not_ws hw]
+    · rw [h.eq, List.nil_append] at hct
+      rw [h.sat c hct] at hch; cases hch
   · simp only [List.reverse_append, List.reverse_cons, List.reverse_nil, List.nil_append,
       List.cons_append, scanLineStart]
     cases hn : isNl c with
@@ -65,6 +73,46 @@ theorem scanLineStart_eq_atLineStart {first : Bool} {ctx : List Char} (hc : CtxO
       have : isWs c = false := by
         simp only [isHws, hn, Bool.not_false, Bool.and_true] at hcc; exact hcc
       simp [this]
+
+def isSt (c : Char) : Bool := c = ' ' || c = '\t'
+
+theorem isSt_isHws {c : Char} (h : isSt c = true) : isHws c = true := by
+  simp only [isSt, Bool.or_eq_true, decide_eq_true_eq] at h
+  rcases h with rfl | rfl <;> decide
+
+theorem dropWhile_st_prefix {u : List Char} (r : List Char) (hu : ∀ x ∈ u, isSt x = true) :
+    (u ++ r).dropWhile isSt = r.dropWhile isSt := by
+  induction u with
+  | nil => rfl
+  | cons a u ih =>
+    simp only [List.cons_append, List.dropWhile_cons, hu a (by simp), if_true]
+    exact ih (fun x hx => hu x (by simp [hx]))
+
+/-- the line-start test of `find_start_marker` (spaces and tabs only) in terms of the text -/
+theorem lineStartP_eq {first : Bool} {ctx : List Char} (t : List Char) (hc : CtxInv first ctx t) :
+    lineStartP (t.reverse ++ ctx) = lineStartText first t := by
+  obtain ⟨b, u, h⟩ := sufSplit_exists isSt t
+  have e1 : lineStartP (t.reverse ++ ctx) = (match (t.reverse ++ ctx).dropWhile isSt with
+      | [] => true
+      | c :: _ => isNl c) := rfl
+  have e2 : lineStartText first t = (match t.reverse.dropWhile isSt with
+      | [] => first
+      | c :: _ => isNl c) := rfl
+  rw [e1, e2, h.rev_dropWhile]
+  have : t.reverse = u.reverse ++ b.reverse := by rw [h.eq, List.reverse_append]
+  rw [this, List.append_assoc, dropWhile_st_prefix _ (by simpa using h.sat)]
+  rcases h.stop with rfl | ⟨b', c, rfl, hcc⟩
+  · rcases hc with hc | ⟨c, hct, hch⟩
+    · rcases hc with ⟨rfl, rfl⟩ | ⟨rfl, c, r, rfl, hw⟩
+      · simp
+      · have hst : isSt c = false := by
+          cases hs : isSt c with
+          | false => rfl
+          | true => rw [isHws_isWs (isSt_isHws hs)] at hw; cases hw
+        simp [List.dropWhile_cons, hst, not_nl_of_not_ws hw]
+    · rw [h.eq, List.nil_append] at hct
+      rw [isSt_isHws (h.sat c hct)] at hch; cases hch
+  · simp [List.dropWhile_cons, hcc]
 
 theorem lstripBlock_drop_of_lineStart {first : Bool} (t : List Char) (l : Nat)
     (h : atLineStart first t = true) : lstripBlock (t.drop l) = cut l (sufCount isHws t) t := by
@@ -93,31 +141,45 @@ theorem lstripBlock_drop_of_lineStart {first : Bool} (t : List Char) (l : Nat)
     rw [h]
     simp [hbl]
 
-theorem shouldLstrip_eq (cfg : Cfg) {first : Bool} {ctx : List Char} (hc : CtxOk first ctx)
+theorem shouldLstrip_eq (cfg : Cfg) {first : Bool} {ctx : List Char} (t : List Char) (hc : CtxInv first ctx t)
     (marker : Marker) (blockish : Bool) (hm : (marker != .var) = blockish)
-    (hm1 : marker ≠ .lineStmt) (hm2 : marker ≠ .lineComment) (t : List Char) :
+    (hm1 : marker ≠ .lineStmt) (hm2 : marker ≠ .lineComment) :
     shouldLstrip cfg.lstrip marker (t.reverse ++ ctx) = (blockish && cfg.lstrip && atLineStart first t) := by
   unfold shouldLstrip
-  rw [scanLineStart_eq_atLineStart hc]
+  rw [scanLineStart_eq_atLineStart t hc]
   have h1 : (marker == Marker.lineStmt) = false := by simpa using hm1
   have h2 : (marker == Marker.lineComment) = false := by simpa using hm2
   rw [h1, h2, hm]
   cases cfg.lstrip <;> cases blockish <;> simp
 
-theorem leadOf_eq_cut (cfg : Cfg) {first : Bool} {ctx : List Char} (hc : CtxOk first ctx)
+theorem leadOf_eq_cut (cfg : Cfg) {first : Bool} {ctx : List Char} (t : List Char) (hc : CtxInv first ctx t)
     (m : Mark) (marker : Marker) (blockish : Bool) (hm : (marker != .var) = blockish)
-    (hm1 : marker ≠ .lineStmt) (hm2 : marker ≠ .lineComment) (t : List Char) (l : Nat) :
+    (hm1 : marker ≠ .lineStmt) (hm2 : marker ≠ .lineComment) (l : Nat) :
     leadOf cfg m.ws marker (t.reverse ++ ctx) (t.drop l) = cut l (rightCut cfg first blockish m t) t := by
   cases m with
   | minus => simp [leadOf, Mark.ws, rightCut, trimEnd_drop]
   | plus => simp [leadOf, Mark.ws, rightCut, cut_zero_right]
   | none =>
     simp only [leadOf, Mark.ws, rightCut]
-    rw [shouldLstrip_eq cfg hc marker blockish hm hm1 hm2]
+    rw [shouldLstrip_eq cfg t hc marker blockish hm hm1 hm2]
     cases hcond : (blockish && cfg.lstrip && atLineStart first t) with
     | true =>
       simp only [Bool.and_eq_true] at hcond
       simp [lstripBlock_drop_of_lineStart t l hcond.2]
     | false => simp [cut_zero_right]
+
+/-- in front of a line statement / line comment `lstrip_blocks` applies whatever the setting -/
+theorem leadOf_line_eq_cut (cfg : Cfg) {first : Bool} {ctx : List Char} (t : List Char) (hc : CtxInv first ctx t)
+    (marker : Marker) (hm : marker = .lineStmt ∨ marker = .lineComment) (l : Nat) :
+    leadOf cfg .dflt marker (t.reverse ++ ctx) (t.drop l) =
+      cut l (rightCut { cfg with trim := true, lstrip := true } first true .none t) t := by
+  have h1 : shouldLstrip cfg.lstrip marker (t.reverse ++ ctx) = atLineStart first t := by
+    unfold shouldLstrip
+    rw [scanLineStart_eq_atLineStart t hc]
+    rcases hm with rfl | rfl <;> simp
+  simp only [leadOf, rightCut, h1, Bool.true_and]
+  cases ha : atLineStart first t with
+  | true => simp [lstripBlock_drop_of_lineStart t l ha]
+  | false => simp [cut_zero_right]
 
 end MJ.Lexer
